@@ -32,9 +32,10 @@ from props import c01 as c01p
 
 ID = "C08"
 PROPS_FILES = ["Gama/Props/C08.lean", "Gama/Props/C08Solvers.lean", "Gama/Props/C08Net.lean",
-               "Gama/Props/C08SvdDecompose.lean", "Gama/Props/C08ProjectEquations.lean"]
+               "Gama/Props/C08SvdDecompose.lean", "Gama/Props/C08ProjectEquations.lean",
+               "Gama/Props/C08NetWitness.lean"]
 LEAN_TARGETS = ["Gama.Props.C08", "Gama.Props.C08Solvers", "Gama.Props.C01.Spec", "Gama.Props.C08Net",
-                "Gama.Props.C08SvdDecompose", "Gama.Props.C08ProjectEquations"]
+                "Gama.Props.C08SvdDecompose", "Gama.Props.C08ProjectEquations", "Gama.Props.C08NetWitness"]
 DRIVERS = ["drv_ls", "drv_minx"]
 RULE = ("ls: free problems (defect>0; dense with planted dependent columns, levelling graphs incl. disconnected; unit / "
         "diagonal / banded SPD covariance) x up to 4 regularisation subsets that resolve the defect (exact rational "
